@@ -194,6 +194,7 @@ def to_val(pv, st=None):
             j = Int('j!q')
             st.assume(tup_len(k) == pv.n, tup_is_tuple(k) == (not pv.is_list),
                       ForAll([j], Implies(And(0 <= j, j < pv.n), tup_item(k, j) == pv.arr[j])))
+            st.assume(Implies(pv.n > 0, tup_item(k, IntVal(0)) == asel(pv.arr, IntVal(0))))       # (the instance for the first item, quantifier-free)
         return Val.T(k)
     if isinstance(pv, PExc):
         if pv.val is None: raise Unsupported('exception object without identity used as a value')
